@@ -33,7 +33,7 @@ def run(tier, seed, rep):
     rng = random.Random(seed * 613651349 + 53)
     with ThreadPoolExecutor(max_workers=1) as ex:
         mc = ex.submit(model, tier)
-        defs = [MG.msg_special(k + 1, k) for k in range(7)]
+        defs = [MG.msg_special(k + 1, k) for k in range(MG.MSG_SPECIALS)]
         defs += [MG.msg_def(rng, len(defs) + k + 1) for k in range(sz["sample"])]
         by_id = {E["id"]: E for E in defs}
         files = {E["id"]: MG.msg_module(E) for E in defs}
